@@ -406,3 +406,41 @@ static Reg r_decode("decode", [](std::istringstream& is) {
 });
 
 }
+
+namespace vf {
+// field <schema> <tag> <kind:value>... : realm interrogation of fields created with the schema's realm attached
+static Reg r_field("field", [](std::istringstream& is) {
+	std::string name; unsigned tag; is >> name >> tag;
+	const F8MetaCntx& ctx(schema(name));
+	const BaseEntry *be(ctx.find_be(tag));
+	J a('[');
+	std::string kv;
+	while (is >> kv)
+	{
+		std::unique_ptr<BaseField> bf(make_field(ctx, tag, kv));
+		J j;
+		const int ri(bf->get_rlm_idx());
+		j.k("ri").num(ri);
+		const RealmBase *r(bf->get_realm());
+		bool valid(true);
+		switch (bf->get_underlying_type())
+		{
+		case FT::ft_int: valid = static_cast<Field<int, 0> *>(bf.get())->is_valid(); break;
+		case FT::ft_char:
+			if (kv[0] == 'c') valid = static_cast<Field<char, 0> *>(bf.get())->is_valid();
+			break;
+		case FT::ft_float: valid = static_cast<Field<fp_type, 0> *>(bf.get())->is_valid(); break;
+		case FT::ft_data: valid = static_cast<Field<f8String, 0> *>(bf.get())->is_valid(); break;
+		default: break;
+		}
+		j.k("valid").boolean(valid);
+		j.k("hasrlm").boolean(r != nullptr);
+		if (r && ri >= 0 && ri < r->_sz && r->_descriptions)
+			j.k("desc").str(r->_descriptions[ri] ? r->_descriptions[ri] : "");
+		if (r && ri >= r->_sz) j.k("oob").boolean(true);
+		a.raw(j.done());
+	}
+	(void)be;
+	return a.done();
+});
+}
